@@ -40,6 +40,7 @@ def run(tier, seed):
     cx.assumptions += ["scales S_1, S_F, S_B: sums of magnitudes of the sub-parts (S_1 computed by the driver from the Yukawa getters and masses)",
                        "first decoupling step 1 -> 3.16 TeV asserted with 0.65 instead of 0.45 (valid points reach 0.59 there)",
                        "m_hSM is set to the light Higgs mass of each decoupling point (a_mu(THDM) is the difference to the SM)"]
+    cx.selftest_corruption("Trace_C10.tla", shards[0], lambda ev: ev["a2LF"] if ev["e"] == "Decouple" and ev["k"] == 2 and ev["exc"] == "" else None, "DecoupleF", every=True, big=True)
     return cx.finish(rule="families per TLC-enumerated class (Cases.tla: C10Cases: kind x Yukawa type x tan(beta) class): SM-limit families "
                           "over 6 values of the common Higgs mass, decoupling families over M = 1, 3.16, 10, 31.6 TeV; "
                           "distinct_nontrivial = families with >= 3 members built")
